@@ -27,6 +27,11 @@ func DefaultBackoffConfig() BackoffConfig {
 
 func CalculateBackoff(cfg BackoffConfig, attempt int) time.Duration {
 	backoff := float64(cfg.InitialBackoff) * math.Pow(cfg.BackoffMultiplier, float64(attempt))
+	if math.IsNaN(backoff) {
+		// InitialBackoff 0 and an attempt number so large that the power overflows: 0 * +Inf.
+		// The product is 0; without this the NaN propagates into a negative duration.
+		backoff = 0
+	}
 	if backoff > float64(cfg.MaxBackoff) {
 		backoff = float64(cfg.MaxBackoff)
 	}
